@@ -135,6 +135,10 @@ EXTRA = [
     {"type": "record", "name": "Trip", "namespace": "geo", "fields": [
         {"name": "start", "type": {"type": "record", "name": "Place", "fields": [{"name": "lat", "type": "double"}, {"name": "tag", "type": "string"}]}},
         {"name": "end", "type": "Place"}, {"name": "stops", "type": {"type": "array", "items": "geo.Place"}}, {"name": "n", "type": "int"}]},
+    # seven named types nested by reference, an array innermost (generation must not depend on how deep the by-name chain is)
+    {"type": "record", "name": "N1", "namespace": "deep", "fields": [{"name": "n", "type": {"type": "record", "name": "N2", "fields": [{"name": "n", "type": {"type": "record", "name": "N3", "fields": [
+        {"name": "n", "type": {"type": "record", "name": "N4", "fields": [{"name": "n", "type": {"type": "record", "name": "N5", "fields": [{"name": "n", "type": {"type": "record", "name": "N6", "fields": [
+            {"name": "n", "type": {"type": "record", "name": "N7", "fields": [{"name": "xs", "type": {"type": "array", "items": "int"}}, {"name": "m", "type": {"type": "map", "values": "string"}}]}}]}}]}}]}}]}}]}}]},
     {"type": "record", "name": "Outer", "namespace": "u", "fields": [
         {"name": "pick", "type": [
             {"type": "record", "name": "First", "fields": [{"name": "x", "type": "int"}]},
@@ -256,9 +260,44 @@ def ops(fa, schema, d, raw_for_reader=None):
             return None
         fo = io.BytesIO()
         fa.schemaless_writer(fo, schema, d)
-        return fa.schemaless_reader(io.BytesIO(fo.getvalue()), schema, copy.deepcopy(reader))
+        res_raw_reader = fa.schemaless_reader(io.BytesIO(fo.getvalue()), schema, copy.deepcopy(reader))
+        # the evolved reader handed over piecewise as well (its own table): the top records may then look alike while the
+        # evolution sits inside a separately parsed piece
+        try:
+            rnamed = named_types(reader)
+            rq, _, _ = build_piecewise(fa, reader, frozenset(rnamed[1:]))
+        except Exception:
+            return (res_raw_reader, res_raw_reader)  # this reader cannot be cut into pieces that parse on their own
+        return (res_raw_reader, fa.schemaless_reader(io.BytesIO(fo.getvalue()), schema, rq))
+
+    def keep_all_with_evolved_reader():
+        # the same evolution without dropping anything at the top: every nested record gains a defaulted field
+        if raw_for_reader is None or '"error"' in json.dumps(raw_for_reader):
+            return None
+        node, defs = names.resolve(copy.deepcopy(raw_for_reader))
+        top = names.deref(node, defs)
+        if top["k"] != "record":
+            return None
+
+        def hook(full, d_):
+            if full != top["name"]:
+                d_["fields"].append({"name": "zz_added", "type": "string", "default": "NL"})
+
+        reader = names.to_schema(node, defs, record_hook=hook)
+        try:
+            names.resolve(copy.deepcopy(reader))
+            rnamed = named_types(reader)
+            if len(rnamed) < 2:
+                return None
+            rq, _, _ = build_piecewise(fa, reader, frozenset(rnamed[1:]))
+        except Exception:
+            return None
+        fo = io.BytesIO()
+        fa.schemaless_writer(fo, schema, d)
+        return (fa.schemaless_reader(io.BytesIO(fo.getvalue()), schema, copy.deepcopy(reader)), fa.schemaless_reader(io.BytesIO(fo.getvalue()), schema, rq))
 
     out["first-field-skipped-under-evolved-reader"] = outcome(skip_first_with_evolved_reader)
+    out["nested-records-evolved-reader-raw-and-piecewise"] = outcome(keep_all_with_evolved_reader)
     out["read-with-options"] = outcome(sl_options)
     out["as-reader-schema"] = outcome(resolve)
     out["as-reader-with-added-fields"] = outcome(resolve_added)
@@ -471,6 +510,11 @@ def run_unit(i, tier):
                                   {"schema": raw, "hoist": sorted(hs), "op": op, "form": fname}))
     for d in data:
         ref_out = ops(fa, copy.deepcopy(raw), d, raw)
+        for op2 in ("first-field-skipped-under-evolved-reader", "nested-records-evolved-reader-raw-and-piecewise"):
+            o = ref_out.get(op2)
+            if o and o[0] == "ok" and isinstance(o[1], tuple) and len(o[1]) == 2 and not same(o[1][0], o[1][1]):
+                res.add(Violation("c12.data-op", f"{op2}:reader-forms-differ", f"{op2} of {short(d, 120)}: with the reader schema raw {short(o[1][0], 200)}, with the same reader schema piecewise {short(o[1][1], 200)} | {short(raw, 250)}",
+                                  {"schema": raw, "hoist": [], "op": op2, "form": "raw", "datum": d}))
         for fname, mk, hs in forms[1:]:
             note_case({"schema": raw, "hoist": sorted(hs), "datum": d})
             got = ops(fa, mk(), d, raw)
